@@ -1409,11 +1409,11 @@ class Vector():
 			# (an untyped empty vector and a Table have no dtype: nothing to compare)
 			if self._dtype is not None and other.schema() is not None and not self._dtype.nullable and not other.schema().nullable and self._dtype.kind != other.schema().kind:
 				raise SerifTypeError("Cannot concatenate two typesafe Vectors of different types")
-			return Vector((self,) + (other,),
-				dtype=self._dtype)
+			# (no dtype: two columns of unequal length do not make a Table but a vector whose
+			# cells are the two vectors - self's dtype would not describe them)
+			return Vector((self,) + (other,))
 		if isinstance(other, Iterable) and not isinstance(other, (str, bytes, bytearray)):
-			return Vector([self, Vector(tuple(x for x in other))],
-				dtype=self._dtype)
+			return Vector([self, Vector(tuple(x for x in other))])
 		elif not self:
 			return Vector((other,),
 				dtype=self._dtype)
